@@ -19,7 +19,8 @@ def run(tier, rep, work):
     storefam.run_store(rep, work, d, exe, "C09", tier, "sessions/vector-only", 3, n // 2, memcap=1, compactn=50, comps="v", seed=13, steps=30, allow=("C08-D1m-shared-templates",))
     storefam.run_store(rep, work, d, exe, "C09", tier, "sessions/trained-ivf template", 4, n // 2, memcap=2, compactn=50, seed=14, steps=30, vec="ivf", allow=("C08-D1m-shared-templates",))
     storefam.run_store(rep, work, d, exe, "C09", tier, "sessions/hnsw template", 5, n // 2, memcap=1, compactn=50, seed=15, steps=30, vec="hnsw", allow=("C08-D1m-shared-templates",))
-    rep.cov["exhaustive"] = True
+    rep.cov["exhaustive"] = False
+    rep.cov["exhaustive_scope"] = "exhaustive on the model; executions of the real store are seeded samples"
     rep.cov["rule"] = ("Histories of add / remove / Flush / background flush / rotation / search with close-and-reopen (fresh templates every time) several times per history and a final reopen; "
                        "memtables of 1-3 documents; templates vector+text+metadata, vector+text, vector only (flat), trained IVF (re-trained after every open, every cluster probed) and HNSW (2M above the document count) with text and metadata; no compaction. After every reopen the documents acknowledged by a completed Flush or Close must be found "
                        "through a vector, a text and a metadata query; every new segment identifier must lie above every identifier handed out before and every identifier present in the directory (logged at the hook); "
